@@ -4,7 +4,7 @@
    values, y over a probe set; a failure here is a specification bug.        *)
 EXTENDS Text
 VARIABLES x, y
-ProbeBytes == {0, 7, 9, 10, 34, 48, 57, 65, 92, 97, 102, 103, 120, 126, 127, 128, 193, 245, 255}
+ProbeBytes == {0, 7, 9, 10, 31, 32, 34, 48, 57, 65, 92, 97, 102, 103, 120, 126, 127, 128, 193, 245, 255}
 Init == x \in 0..255 /\ y \in ProbeBytes
 Next == UNCHANGED <<x, y>>
 Spec == Init /\ [][Next]_<<x, y>>
@@ -32,8 +32,8 @@ Unesc(s) ==
        IF e = 120 THEN <<16 * HexVal(s[3]) + HexVal(s[4])>> \o Unesc(SubSeq(s, 5, Len(s)))
        ELSE <<CASE e = QUOTE -> QUOTE [] e = BSL -> BSL [] e = 97 -> 7 [] e = 98 -> 8 [] e = 102 -> 12
                 [] e = 110 -> 10 [] e = 114 -> 13 [] e = 116 -> 9 [] e = 118 -> 11>> \o Unesc(SubSeq(s, 3, Len(s)))
-InAlpha(c) == InSpecAlphabet(<<c>>)
-EscInverse == (InAlpha(x) /\ InAlpha(y)) =>
+InAlpha(c) == InSpecAlphabet(<<c>>)      \* every single byte lies in the quoting alphabet; pairs: lead + continuation do not
+EscInverse == InSpecAlphabet(<<x, y>>) =>
                 /\ Unesc(EscBody(<<x, y>>)) = <<x, y>>
                 /\ Unesc(EscBody(<<y, x, y>>)) = <<y, x, y>>
 EscPrintable == InAlpha(x) => LET e == EscByte(x) IN
@@ -41,7 +41,7 @@ EscPrintable == InAlpha(x) => LET e == EscByte(x) IN
                 /\ (Len(e) = 1 => e[1] \notin {QUOTE, BSL})
 SpecQuoting ==
   LET s == <<x, y>> \o Rep(0, 14)  t == Trim0(s) IN
-  (InAlpha(x) /\ InAlpha(y)) =>
+  InSpecAlphabet(s) =>
     /\ (IsAlnum(x) /\ IsAlnum(y)) => SpecText(s) = <<x, y>>
     /\ (y = 0 /\ IsAlnum(x)) => SpecText(s) = <<x>>
     /\ (x = 0 /\ y = 0) => SpecText(s) = <<>>
@@ -55,11 +55,42 @@ PolShape ==
       ab == [k |-> "above", n |-> FromInt(x * 256 + y)]
       uc == [k |-> "uc", tl |-> FromInt(x), keys |-> <<[alg |-> <<101, 100>> \o Rep(0, 14), key |-> <<x, y>>]>>, sr |-> FromInt(y)]
       th == [k |-> "thresh", n |-> y, of |-> <<pk, ab, uc>>] IN
-  /\ WellFormedPol(th)
+  /\ WellFormedPol(th, TRUE)
   /\ PolText(pk) = L_pk \o <<LP>> \o L_0x \o HexOf(Rep(x, 32)) \o <<RP>>
   /\ PolText(th) = L_thresh \o <<LP>> \o DecInt(y) \o <<COMMA, LB>> \o PolText(pk) \o <<COMMA>> \o PolText(ab)
                      \o <<COMMA>> \o PolText(uc) \o <<RB, RP>>
   /\ PolText(uc) = L_uc \o <<LP>> \o DecInt(x) \o <<COMMA, LB, 101, 100, COLON>> \o HexOf(<<x, y>>) \o <<RB, COMMA>> \o DecInt(y) \o <<RP>>
   /\ PolEquiv(th, th) /\ ~PolEquiv(th, [th EXCEPT !.n = (y + 1) % 256])
   /\ PolText([k |-> "thresh", n |-> 0, of |-> <<>>]) = L_thresh \o <<LP, 48, COMMA, LB, RB, RP>>
+\* limits: depth and width of policies, the unit form of currencies, signed Unix seconds
+RECURSIVE Nested(_, _)
+Nested(d, leaf) == IF d = 0 THEN leaf ELSE [k |-> "thresh", n |-> 1, of |-> <<Nested(d - 1, leaf)>>]
+\* (evaluated on four values of x: none of it depends on more than the magnitude of x)
+Limits == x \in {0, 1, 97, 255} =>
+  LET pk == [k |-> "pk", b |-> Rep(x, 32)]
+      e0 == [k |-> "thresh", n |-> 0, of |-> <<>>]
+      d  == y % 40                                     \* the probe set reaches 31, 32, 33
+      n  == x * 256 + y  IN
+  /\ PolDepth(pk) = 0 /\ PolDepth(e0) = 0
+  /\ PolDepth(Nested(d, pk)) = d /\ PolDepth(Nested(d, e0)) = d
+  /\ BinaryAdmitsPol(Nested(d, pk)) = (d <= 32)
+  /\ PolDepth([k |-> "thresh", n |-> 2, of |-> <<pk, Nested(d, pk), pk>>]) = d + 1
+  /\ PolText(Nested(2, pk)) = L_thresh \o <<LP, 49, COMMA, LB>> \o L_thresh \o <<LP, 49, COMMA, LB>> \o PolText(pk) \o <<RB, RP, RB, RP>>
+  /\ Agrees(TRUE, TRUE, TRUE) /\ ~Agrees(TRUE, FALSE, FALSE) /\ Agrees(FALSE, FALSE, FALSE) /\ ~Agrees(FALSE, TRUE, FALSE)
+  \* the unit form denotes the value, for small values and scaled up to each unit
+  /\ \A e \in {0, 9, 11, 12, 13, 24, 36, 38} :
+       LET v == Mul(FromInt(n), Pow10(e))  txt == CurUnitText(v) IN
+       (Lt(v, Pow2(128)) => CurAccepts(txt) /\ CurDenotes(txt) = v) /\ CurDenotes(Dec(v)) = v
+  /\ (x = 0 /\ y = 0) =>
+     /\ CurUnitText(Pow10(24)) = <<49, 32, 83, 67>>                                    \* 1 SC
+     /\ CurUnitText(Add(Pow10(24), Pow10(23))) = <<49, 46, 49, 32, 83, 67>>            \* 1.1 SC
+     /\ CurUnitText(Sub(Pow10(12), One)) = [i \in 1..12 |-> 57] \o <<32, 72>>          \* 999999999999 H
+     /\ CurUnitText(Pow10(12)) = <<49, 32, 112, 83>>                                   \* 1 pS
+     /\ CurUnitText(Pow10(40)) = <<49, 48, 48, 48, 48, 32, 84, 83>>                    \* 10000 TS
+     /\ Len(Digits(MaxCurrency)) = 39
+     /\ Len(CurUnitText(MaxCurrency)) = 43                                             \* 340.<36 digits> TS
+  /\ UnixLe(Unix(TRUE, FromInt(n + 1)), Unix(FALSE, FromInt(n))) /\ ~UnixLe(Unix(FALSE, FromInt(n)), Unix(TRUE, FromInt(n + 1)))
+  /\ UnixLe(Unix(TRUE, FromInt(n + 1)), Unix(TRUE, FromInt(n))) /\ UnixLe(Unix(FALSE, FromInt(n)), Unix(FALSE, FromInt(n + 1)))
+  /\ InJSONYears(Unix(FALSE, FromInt(n))) /\ ~InJSONYears(Unix(FALSE, Add(MaxJSONUnix.n, FromInt(n + 1))))
+  /\ ~InJSONYears(MinUnix64) /\ ~InJSONYears(MaxUnix64) /\ InJSONYears(MinJSONUnix) /\ InJSONYears(MaxJSONUnix)
 =============================================================================
